@@ -78,9 +78,11 @@ def _alone(piece, dialect, cfg):
             if cfg:
                 with SQLLineageConfig(**cfg):
                     r = LineageRunner(piece, dialect=dialect)
+                    r.source_tables  # the analysis is what the statement tap observes; listing statements need not trigger it
                     stmts = r.statements()
             else:
                 r = LineageRunner(piece, dialect=dialect)
+                r.source_tables
                 stmts = r.statements()
         st = taps.end()
         if len(st["holders"]) == 1 and len(stmts) == 1:
@@ -108,7 +110,10 @@ def run_script(arg):
     script = seps[0]
     for p, s in zip(pieces, seps[1:]):
         script += p + s
-    rec = observe.run_case({"sql": script, "dialect": dialect, "config": cfg, "want": [], "provider": "default"})
+    case = {"sql": script, "dialect": dialect, "config": cfg, "want": [], "provider": "default"}
+    if arg.get("order"):
+        case["order"] = arg["order"]
+    rec = observe.run_case(case)
     out = {"script": script, "outcome": "ok" if rec["outcome"] == "ok" else rec["outcome"]["exc_type"]}
     if rec["outcome"] != "ok":
         out["message"] = rec["outcome"]["message"]
